@@ -51,6 +51,9 @@ func ByName(name string) (Strat, bool) {
 		for _, s := range Base() {
 			byName[s.Name] = s
 		}
+		for _, s := range Extra() {
+			byName[s.Name] = s
+		}
 	}
 	s, ok := byName[name]
 	return s, ok
